@@ -499,4 +499,104 @@ theorem fold_buf_query_sub (raws ds : List Bytes) (st : Cnt) (h : decodeAll raws
           obtain ⟨ds', hsub, hf⟩ := ih t { st with segs := st.segs ++ [d] } ht
           exact ⟨d :: ds', List.Sublist.cons_cons _ hsub, by simpa using hf⟩
 
+/-! ### coap_split_uri_sub / coap_uri_into_optlist never leave the input, Unix-socket authorities included -/
+
+theorem ite_not_oob {α : Type} (c : Prop) [Decidable c] (a b : R α) (ha : a ≠ R.oob) (hb : b ≠ R.oob) :
+    (if c then a else b) ≠ R.oob := by
+  split <;> assumption
+
+theorem pathAndQuery_not_oob (u : MU.Uri) (q : Bytes) : pathAndQuery u q ≠ R.oob := by
+  cases q with
+  | nil => exact ite_not_oob _ _ _ (by simp) (by simp)
+  | cons c r =>
+    unfold pathAndQuery
+    dsimp only
+    generalize (if c = 0x2f then spanWhile (· != 0x3f) r else ([], c :: r)) = pq
+    obtain ⟨p1, p2⟩ := pq
+    cases p2 with
+    | nil => exact ite_not_oob _ _ _ (by simp) (by simp)
+    | cons d qr => exact ite_not_oob _ _ _ (ite_not_oob _ _ _ (by simp) (by simp)) (by simp)
+
+theorem hostM_not_oob (u1 : MU.Uri) (p : Bytes) : hostM u1 p ≠ R.oob := by
+  cases p with
+  | nil => simp [hostM]
+  | cons c r =>
+    unfold hostM
+    dsimp only
+    apply ite_not_oob
+    · generalize spanWhile (· != 0x5d) r = hq
+      obtain ⟨h1, h2⟩ := hq
+      cases h2 with
+      | nil => simp
+      | cons d q' => exact ite_not_oob _ _ _ (by simp) (by simp)
+    · exact ite_not_oob _ _ _ (by simp) (by simp)
+
+theorem portM_not_oob (u2 : MU.Uri) (q : Bytes) (unix : Bool) : portM u2 q unix ≠ R.oob := by
+  cases q with
+  | nil => simp [portM]
+  | cons c r =>
+    unfold portM
+    dsimp only
+    apply ite_not_oob
+    · apply ite_not_oob
+      · simp
+      · apply ite_not_oob
+        · simp
+        · exact ite_not_oob _ _ _ (by simp) (by simp)
+    · simp
+
+theorem afterScheme_not_oob (u1 : MU.Uri) (p : Bytes) : afterScheme u1 p ≠ R.oob := by
+  unfold afterScheme
+  have h1 := hostM_not_oob u1 p
+  cases hh : hostM u1 p with
+  | oob => exact absurd hh h1
+  | rej => simp
+  | ok r =>
+    obtain ⟨u2, q, unix⟩ := r
+    dsimp only
+    have h2 := portM_not_oob u2 q unix
+    cases hp : portM u2 q unix with
+    | oob => exact absurd hp h2
+    | rej => simp
+    | ok r2 =>
+      obtain ⟨u3, q2⟩ := r2
+      exact pathAndQuery_not_oob u3 q2
+
+theorem splitUriSub_not_oob (proxy : Bool) (s : Bytes) : splitUriSub proxy s ≠ R.oob := by
+  rw [splitUriSub_unfold]
+  cases s with
+  | nil => simp
+  | cons c0 t =>
+    dsimp only
+    apply ite_not_oob
+    · exact ite_not_oob _ _ _ (by simp) (pathAndQuery_not_oob _ _)
+    · apply ite_not_oob
+      · simp
+      · cases Generated.Uri.schemes.find? (fun e => e.1 == (findScheme (c0 :: t)).1) with
+        | none => simp
+        | some e =>
+          obtain ⟨nm, dport, proxyOnly, id⟩ := e
+          dsimp only
+          exact ite_not_oob _ _ _ (by simp) (ite_not_oob _ _ _ (by simp) (afterScheme_not_oob _ _))
+
+theorem uriIntoOptlist_not_oob (dst : Bytes) (u : MU.Uri) : uriIntoOptlist dst u ≠ R.oob := by
+  unfold uriIntoOptlist
+  dsimp only
+  have hp : (if u.path.length ≠ 0 then pathOpts u.path else R.ok []) ≠ R.oob := by
+    split
+    · rw [pathOpts_fold]; simp
+    · simp
+  have hq : (if u.query.length ≠ 0 then queryOpts u.query else R.ok []) ≠ R.oob := by
+    split
+    · rw [queryOpts_fold]; simp
+    · simp
+  cases h1 : (if u.path.length ≠ 0 then pathOpts u.path else R.ok []) with
+  | oob => exact absurd h1 hp
+  | rej => simp
+  | ok ps =>
+    cases h2 : (if u.query.length ≠ 0 then queryOpts u.query else R.ok []) with
+    | oob => exact absurd h2 hq
+    | rej => simp
+    | ok qs => simp
+
 end Coap.UriL
